@@ -700,6 +700,11 @@ fn mode_stage(argc: c_int, argv: *const *const c_char) -> c_int {
     unsafe {
         libc::close(1);
         libc::close(0);
+        // optional 11th argument: 1 = also give up stderr before lingering (a daemonising command: all three standard
+        // streams closed, still running)
+        if argc > 11 && num(arg_str(argv, 11)) == 1 {
+            libc::close(2);
+        }
     }
     if linger > 0 {
         sleep_ms(linger);
